@@ -12,7 +12,7 @@ from .. import core
 from . import c04 as G        # my own generators / BAM encoder (C04 module)
 
 ID = "C05"
-RULE = ("two tables read from generated BED/BED6/VCF/SAM/FASTQ/two-line FASTA (Lean-modelled) and BAM (implementation only) files, "
+RULE = ("two tables read from generated BED/BED6/VCF/SAM/FASTQ/two-line FASTA/BAM files (all Lean-modelled), "
         "canonical and non-canonical text, whole and chunked read, each program run twice (lazy=True / lazy=False): random "
         "register programs over {len, get field, t[slice|mask|int list], t[i], np.concatenate([t,u]), replace(t, f=values), "
         "t.f = values, tolist, write}; observation after every step; plus EVERY program of length <= 2 (quick) / <= 3 (thorough) over a "
@@ -33,8 +33,9 @@ ASSUMPTIONS = [
     "array is valid in both: it is observed but never replaced",
     "an operation that raises leaves the table unchanged; only the fact of failing is compared, not the exception class",
     "FASTQ / two-line FASTA / BAM buffers have no `concatenate`: their lazy tables become eager on np.concatenate; the eager result "
-    "is modelled by the observationally equal lazy table whose overlay holds every field (Cfg.bufferConcat = false); BAM is compared "
-    "implementation-lazy vs implementation-eager only (eager BAM tables cannot be written)",
+    "is modelled by the observationally equal lazy table whose overlay holds every field (Cfg.bufferConcat = false); BAM additionally "
+    "has no modified write and no eager writer (Cfg.modWrite = Cfg.eagerWrite = false), its records come from this module's "
+    "spec-level encoder",
 ]
 TRUSTED_EXTRA = ["gzip (BAM container) and the OS file layer"]
 
@@ -47,8 +48,7 @@ MANIFEST = {
             "tied to the C04 extractor by buffer_index_refines / buffer_concat_refines. Correspondence: "
             "the real package run twice (lazy=True/False) on generated files and random programs vs the Lean lazy and eager models "
             "vs a Python list-of-rows oracle.",
-    "note": "The buffer is abstracted to the list of rows it denotes (C04) and parsing to a per-row function (C02); BAM is compared "
-            "lazy-vs-eager on the implementation only.",
+    "note": "The buffer is abstracted to the list of rows it denotes (C04) and parsing to a per-row function (C02).",
     "technique": "Lean 4 bisimulation proof (induction over programs) + differential correspondence with the implementation",
     "design": "§6 C05",
 }
@@ -64,7 +64,7 @@ KINDS = {
     "bam": ["str", "str", "int", "int", "int", "str", "list", "str", "list"],
 }
 NAMES = dict(G.FIELD_NAMES, bam=["chromosome", "name", "flag", "position", "mapq", "cigar_op", "cigar_length", "sequence", "quality"])
-MODEL_FMTS = ("bed", "bed6", "vcf", "sam", "fastq", "fasta2")
+MODEL_FMTS = ("bed", "bed6", "vcf", "sam", "fastq", "fasta2", "bam")
 REPLACEABLE = {"bed": [0, 1, 2], "bed6": [0, 1, 2, 3], "vcf": [0, 1, 2, 3, 4, 5, 6], "sam": [0, 1, 2, 3, 4, 5, 6, 7, 8, 9, 10],
                "fastq": [0, 1], "fasta2": [0, 1], "bam": []}
 SEQID = {"bed": [0], "bed6": [0, 3], "vcf": [0], "sam": [0, 2], "fastq": [0], "fasta2": [0], "bam": []}
@@ -124,7 +124,8 @@ def make_tables(rng, fmt, canonical):
         rows = []
         for _ in range(rng.choice([1, 2, 3, 4, 5])):
             if fmt == "bam":
-                rows.append({"raw": G.bam_record(rng).decode("latin-1"), "cells": []})
+                b, vals = G.bam_record_fields(rng)
+                rows.append({"raw": b.decode("latin-1"), "cells": [[v, v] for v in vals]})
             else:
                 raw, texts = gen_row(fmt, rng, canonical, shape)
                 rows.append({"raw": raw, "cells": [[t, _val(k, t)] for t, k in zip(texts, KINDS[fmt])]})
@@ -190,7 +191,7 @@ def make_case(rng, fmt, nops, canonical=None):
 def cases(tier, rng):
     G._tmp()    # scratch directory of the run: created in the parent, shared by the forked workers, removed at exit
     big = tier in ("thorough", "widen")
-    per = {"quick": 400, "thorough": 5000, "widen": 1500}[tier]
+    per = {"quick": 300, "thorough": 5000, "widen": 1500}[tier]
     L = 8 if big else 5
     fmts = ["bed", "bed6", "vcf", "sam", "fastq", "fasta2", "bam"]
     # fixed scenario family: cache / overlay interleavings around one concatenate
@@ -264,8 +265,6 @@ def nontrivial(c):
 # ------------------------------------------------------------------ oracle: a table is a list of rows of value spellings
 
 def oracle(c):
-    if c["fmt"] == "bam":
-        return {"spec": None}
     fmt = c["fmt"]
     nF = len(KINDS[fmt])
     regs = [[[cell[1] for cell in r["cells"]] for r in t] for t in c["tables"]]
@@ -301,7 +300,8 @@ def oracle(c):
         elif k == "tolist":
             out.append({"rows": [list(r) for r in t]})
         elif k == "write":
-            out.append({"bytes": _header(c) + "".join(_dump_row(fmt, r) for r in t)})
+            # (BAM has no eager writer; the records of an unmodified BAM table are its source bytes — known finding when eager fails)
+            out.append("err" if fmt == "bam" else {"bytes": _header(c) + "".join(_dump_row(fmt, r) for r in t)})
     return {"spec": out}
 
 
@@ -531,8 +531,13 @@ def model_request(c):
             tables = [pieces[0], tables[1]] + pieces[1:]
             pre = [{"k": "cat", "a": 0, "b": 2 + i} for i in range(len(pieces) - 1)]
             ops, drop = pre + ops, len(pre)
+    hdr = _header(c)
+    if c["fmt"] == "bam":
+        hx = lambda x: x.encode("latin-1").hex()
+        tables = [[{"raw": hx(r["raw"]), "cells": r["cells"]} for r in t] for t in tables]
+        hdr = hx(hdr)
     return {"op": "run", "fmt": c["fmt"], "nF": len(KINDS[c["fmt"]]), "ops": ops, "drop": drop,
-            "tables": tables, "hdr": _header(c)}
+            "tables": tables, "hdr": hdr}
 
 
 def finding_key(c, got, exp):
